@@ -178,6 +178,22 @@ func (st *State) callAPI(fn *ssa.Function, a []Value, caller *frame) Value {
 	case "Schedule":
 		st.schedOn(int(st.asInt(a[0], 0, 16)))
 		return nil
+	case "Quiesce":
+		// wait until every other goroutine has finished; goroutines that can never finish
+		// end the path as a deadlock (reported)
+		for st.sch.on {
+			alive := false
+			for _, t := range st.sch.threads[1:] {
+				if !t.done {
+					alive = true
+				}
+			}
+			if !alive {
+				break
+			}
+			st.block("waiting for the remaining goroutines to finish")
+		}
+		return nil
 	case "AutoSchedule":
 		st.autoSched = true
 		return nil
